@@ -10,13 +10,13 @@ RULE = ('Evaluation = one triple of executions (A, A\\u2032, A\\u2033) of the re
         'per-hit data of the three runs are bit-identical; the multiset of (ceilo, dt, height, type) kept in '
         'CeiloChunk.data equals the input minus the documented crop (every hit at or below the limit unchanged); '
         'the high-cloud flag of each run == (number of input hits above the limit > MAX_HITS_OKTA0); with MSA None '
-        'nothing changes and the flag is False. Workload: generated scenes with limits placed exactly at a hit '
+        'nothing changes and the flag is False; the flag is read again after all three messages were asked for (a query must not move it), incl. scenes whose only clouds sit inside the buffer zone. Workload: generated scenes with limits placed exactly at a hit '
         'height, between hits, at 0, with buffer 0, above/below everything; first/second/third/VV hits straddling '
         'the limit; MAX_HITS_OKTA0 in 0..10 incl. count == MAX_HITS_OKTA0 and +1; non-unique index labels. '
         'Non-trivial = >= 1 hit above the limit; distinct = hash of (rows, parameters).')
 ASSUMPTIONS = ['frames whose rows are all type>=2 hits above the limit (chunk emptied by the crop: known finding D8, decided by C08) are skipped']
 REQUIRED = ['limit_eq_hit_height', 'type_ge2_above', 'vv_above', 'n_above_eq_MAX_HITS_OKTA0', 'n_above_eq_MAX_HITS_OKTA0_plus1',
-            'msa_none', 'buffer_0', 'msa_0', 'flag_true', 'flag_false_with_hits_above', 'nonunique_index',
+            'msa_none', 'buffer_0', 'msa_0', 'flag_true', 'flag_false_with_hits_above', 'significant_cloud_only_inside_buffer_zone', 'nonunique_index',
             'type1_above_type2_below', 'noninteger_msa_and_buffer', 'checked_concat_frames', 'measurement_of_second_hits_only_above']
 SIZES = {'quick': 420, 'thorough': 9000}
 
@@ -28,6 +28,16 @@ def plan(tier, seed):
 def build(desc):
     rng = scenes.rng_for(desc['s'], NUM, desc['i'])
     i = desc['i']
+    if i % 10 == 7:
+        # every cloud sits inside the buffer zone [MSA, MSA + buffer] (or a few hits above it): nothing is cropped,
+        # nothing is reportable, and the flag stays down whatever is asked of the chunk afterwards
+        sc, prm = pipeline.flat_okta_case(rng, {'oktas': [int(rng.choice([2, 4, 6, 8])), int(rng.choice([0, 3, 8]))], 'msa': ['below'],
+                                                'buffer': float(rng.choice([1700.0, 3000.0, 10000.0])), 'nce': 1 + (i // 10) % 2})
+        limit = prm['call']['MSA'] + prm['call']['MSA_HIT_BUFFER']
+        n_above = sum(1 for r in sc['rows'] if r[2] == r[2] and r[2] > limit)
+        prm['call']['MAX_HITS_OKTA0'] = max(3, n_above)
+        sc['buffer_zone_only'] = True
+        return {'scene': sc, 'prm': prm, 'limit': limit}
     sc = scenes.gen_scene(rng, allow_vv=True, maxrows=400, nce=None)
     if i % 6 == 0:      # make sure VV hits exist high up
         rows = sc['rows']
@@ -173,6 +183,12 @@ def check(desc):
     if oa['flag'] != (n_above > o0):
         oracles.V(viol, 'C07', 'high-cloud flag != (hits above the limit > MAX_HITS_OKTA0)', n_above=n_above,
                   max_hits_okta0=o0, flag=oa['flag'], limit=limit)
+    if oa['flag_after_msgs'] != (n_above > o0):
+        oracles.V(viol, 'C07', 'high-cloud flag changes when the messages are asked for', n_above=n_above,
+                  max_hits_okta0=o0, flag_after_run=oa['flag'], flag_after_metar_msg=oa['flag_after_msgs'], limit=limit,
+                  msgs=oa['msgs'])
+    if sc.get('buffer_zone_only') and not oa['flag'] and set(oa['msgs'].values()) == {'NSC'}:
+        tags.add('significant_cloud_only_inside_buffer_zone')
     res['evals'] = 1
     if limit is None:
         tags.add('msa_none')
